@@ -146,10 +146,38 @@ PROFILES += [
     },
 ]
 
+# ---- Python representation (Representation.construction_arguments)
+# The call with `fields` given: `fields name` is the text `self.repr` produces for the value stored under `name`
+# (`None` = the name is not a key); `signature` is `inspect.signature(...).parameters.values()` (with `self`),
+# `noInit` says that the class has no constructor of its own.
+PARAM = "Op.PyRepr.Param"
+PROFILES += [
+    {
+        "name": "construction_arguments", "module": "fuzzylite.library", "object": "Representation.construction_arguments",
+        "file": "CodeRepr",
+        "params": [("noInit", "Bool"), ("signature", f"List {PARAM}"), ("fields", "String → Option String"), ("positional0", "Bool")],
+        "init": {"positional": "positional0"},
+        "skip_if": ["fields is None"],
+        "locals": {"positional": "Bool", "arguments": "List String", "constructor": f"List {PARAM}", "parameter": PARAM,
+                   "value": "String", "argument": "String"},
+        "ret": "List String",
+        "externals": [
+            ("x.__class__.__init__ == object.__init__", "noInit", "Bool", True),
+            ("list(inspect.signature((cast_as or x.__class__).__init__).parameters.values())", "signature", f"List {PARAM}", True),
+            ("_0.name", "{0}.name", "String", True, [PARAM]),
+            ("_0 in fields", "(fields {0}).isSome", "Bool", True, ["String"]),
+            ("self.repr(fields[_0])", "(Py.Repr.field fields {0})", "String", False, ["String"]),
+            ("_0.default != _0.empty", "{0}.hasDefault", "Bool", True, [PARAM]),
+        ],
+    },
+]
+
 FILES = {
     "CodeRule": {"imports": ["FlVerif.Op.PyExt"]},
     "CodeFunction": {"imports": ["FlVerif.Op.PyExt"]},
     "CodeActivation": {"imports": ["FlVerif.Op.PyExtAct"]},
     # ---- FLD grid
     "CodeFld": {"imports": ["FlVerif.Op.PyExtFld"]},
+    # ---- Python representation
+    "CodeRepr": {"imports": ["FlVerif.Op.PyExtRepr"]},
 }
